@@ -10,7 +10,7 @@ from harness import core, scen
 from harness.gallina import gbool, glist, gn, gopt, gstr, gz
 
 ID = "C15"
-COQ_TARGETS = ["Reach.vo", "ReachProofs.vo", "RefutedC15.vo", "CorrC15.vo", "Props/C15.vo"]
+COQ_TARGETS = ["Reach.vo", "ReachProofs.vo", "ReachSpec.vo", "RefutedC15.vo", "CorrC15.vo", "Props/C15.vo"]
 PROPS_FILE = "Props/C15.v"
 CORR_IMPORTS = "Base Heap Schema Reach CorrC15"
 ENTRY = "cassis.cas.Cas._find_all_fs (and to_xmi / to_json / load_cas_from_xmi / load_cas_from_json / typecheck / select / cas_to_comparable_text for the deadline)"
@@ -18,12 +18,12 @@ CASE_TIMEOUT_S = 10          # graph cases take milliseconds; the deadline repla
 RULE = (
     "Correspondence: systematic reference-graph shapes (chains, cycles, self-references, diamond chains, inline and "
     "shared FSArray/FSList holding the same or an already visited structure several times, null elements, cyclic tail "
-    "chains, TOP-ranged features, cas:NULL ids, forced duplicate ids, explicit seeds) at several small sizes, random graphs "
+    "chains, TOP-ranged features, instances of uima.cas.TOP itself, cas:NULL ids, forced duplicate ids, explicit seeds) at several small sizes, random graphs "
     "over the same type system and random scen.gen_tspec/gen_cspec CASes; each with include_inlinable_arrays_and_lists "
     "False and True and with no / partial / all explicit ids. Observation: (xmiID, label) in the order returned, ids of "
-    "all objects and the generator's next id afterwards, or the error kind. Deadline obligation: 13 shapes x sizes "
-    "n,2n,4n (quick 250/500/1000, thorough 1000/2000/4000; diamond depth 50/100/200; lists additionally 5000) x 7 "
-    "operations in subprocesses, CPU cap and growth-ratio cap 12 per doubling. A case is non-trivial when its graph has a "
+    "all objects and the generator's next id afterwards, or the error kind. Deadline obligation: 14 shapes x sizes "
+    "n,2n,4n (quick 250/500/1000, thorough 1000/2000/4000; diamond depth 50/100/200; type-reference ladder depth 15/30/60; "
+    "lists additionally 5000/8000) x 8 operations (to_json with type systems FULL and MINIMAL) in subprocesses, CPU cap and growth-ratio cap 12 per doubling. A case is non-trivial when its graph has a "
     "cycle, a repeated/visited/null collection element, a shared collection, or explicit seeds."
 )
 TRUSTED = [
@@ -36,7 +36,7 @@ TRUSTED = [
     "list walk <= live objects per feature); the deadline oracle measures the implementation",
 ]
 ASSUMPTIONS = [
-    "well-formed heaps: every value the scan considers is None or a live feature structure; no instance of uima.cas.TOP itself",
+    "well-formed heaps: every value the scan considers is None or a live feature structure",
     "seed order is the observed View.get_all_annotations order (id()-dependent among ties) and is an input of the model",
 ]
 
@@ -260,6 +260,20 @@ def shapes(n):
     b.add(x)
     b.add(b.node(lst=first))
     out.append(("forced_duplicate_in_list", b, None))
+    # instances of uima.cas.TOP itself (no supertype: D57, repaired by 2a93760): indexed, and reachable only through a
+    # TOP-ranged feature, an array, an inline and a shared list
+    b = B()
+    tops = [b.new(TOP) for _ in range(min(n, 3) + 4)]
+    b.add(tops[0])
+    first, _ = b.lst([tops[2], None, tops[2]])
+    sfirst, _ = b.lst([tops[3]])
+    b.add(b.node(top=tops[1], arr=b.arr([tops[4], tops[0]]), lst=first, slst=sfirst))
+    for t in tops[5:]:
+        b.add(b.node(top=t))
+    out.append(("top_instance", b, None))
+    b = B()
+    t = b.new(TOP)
+    out.append(("top_instance_seed", b, [t]))
     # same id on an unreachable structure: no error
     b = B()
     x, y = b.node(id=66), b.node(id=66)
@@ -273,8 +287,10 @@ def random_graph(rng, n):
     nodes = []
     for i in range(n):
         k = rng.random()
-        if k < 0.7:
+        if k < 0.62:
             nodes.append(b.node(type_=rng.choice(["g.Node", "g.Node", "g.Sub"])))
+        elif k < 0.7:
+            nodes.append(b.new(TOP))
         else:
             v = rng.randrange(len(b.views))
             bg = rng.randint(0, 6)
@@ -304,12 +320,12 @@ def random_graph(rng, n):
         t = o["type"]
         feats = {"g.Node": ["a", "b", "top", "arr", "sarr", "lst", "slst"],
                  "g.Sub": ["a", "b", "top", "arr", "sarr", "lst", "slst", "c", "farr"],
-                 "g.Ann": ["ref", "arr", "lst"]}[t]
+                 "g.Ann": ["ref", "arr", "lst"], TOP: []}[t]
         for fn in feats:
             if rng.random() < 0.45:
                 continue
             if fn in ("a", "b", "c", "ref"):
-                cands = [x for x in nodes if b.objs[x - 1]["type"] != "g.Ann"]
+                cands = [x for x in nodes if b.objs[x - 1]["type"] in ("g.Node", "g.Sub")]
                 if cands:
                     o["slots"][fn] = ref(rng.choice(cands))
             elif fn == "top":
@@ -642,17 +658,8 @@ def shrink_candidates(sc):
 
 
 def _shrink_candidates(sc):
+    """clear one slot (not the offsets / sofa of an annotation), or drop one index entry"""
     objs = sc["cspec"]["objs"]
-    # drop one object that nothing refers to and that is no member/seed; or clear one slot; or drop one member
-    used = set()
-    for o in objs:
-        for v in o["slots"].values():
-            if v and "ref" in v:
-                used.add(v["ref"])
-            if v and "list" in v:
-                used.update(e["ref"] for e in v["list"] if e)
-    used.update(l for _v, l in sc["cspec"]["members"])
-    used.update(sc["seeds"] or [])
     for o in objs:
         for k in list(o["slots"]):
             if k in ("sofa", "begin", "end"):
@@ -686,9 +693,11 @@ def distribution(scenarios, observations):
 # ------------------------------------------------------------------------------------------------ deadline oracle
 
 TIMING = os.path.join(os.path.dirname(os.path.abspath(__file__)), "c15_timing.py")
-OPS = ["typecheck", "to_xmi", "to_json", "load_cas_from_xmi", "load_cas_from_json", "select", "cas_to_comparable_text"]
+OPS = ["typecheck", "to_xmi", "to_json", "to_json_minimal", "load_cas_from_xmi", "load_cas_from_json", "select", "cas_to_comparable_text"]
 SHAPES = ["chain", "cycle", "selfref", "diamond", "inline_array", "shared_array", "inline_list", "shared_list",
-          "cyclic_inline_list", "cyclic_shared_list", "many_small_collections", "top_fan", "deep_types"]
+          "cyclic_inline_list", "cyclic_shared_list", "many_small_collections", "top_fan", "deep_types", "type_ref_ladder"]
+# the only operation that may end with an exception: XMI refuses to write a cyclic list inline (ValueError)
+ALLOWED_ERRORS = {("cyclic_inline_list", "to_xmi"): "ValueError"}
 RATIO_CAP = 12.0
 RATIO_FLOOR_S = 0.05
 
@@ -696,6 +705,8 @@ RATIO_FLOOR_S = 0.05
 def timing_sizes(shape, tier):
     if shape == "diamond":
         return [50, 100, 200]
+    if shape == "type_ref_ladder":            # depth of a type tree whose levels refer to the next level through several features
+        return [15, 30, 60]
     base = [250, 500, 1000] if tier == "quick" else [1000, 2000, 4000]
     if shape in ("inline_list", "shared_list", "cyclic_inline_list", "cyclic_shared_list"):
         return base + ([5000] if tier == "quick" else [8000])
@@ -739,6 +750,12 @@ def judge_shape(shape, tier, measure=_measure):
         for op, t in r["times"].items():
             if t > cpu_cap:
                 return False, f"{shape} n={n}: {op} took {t:.2f} s CPU (cap {cpu_cap:.0f} s)", sc
+        for op, kind in r.get("errors", {}).items():
+            if ALLOWED_ERRORS.get((shape, op)) != kind:
+                return False, f"{shape} n={n}: {op} raised {kind}", sc
+        missing = [op for op in OPS if op not in r["times"] and not (op == "load_cas_from_xmi" and "to_xmi" in r.get("errors", {}))]
+        if missing:
+            return False, f"{shape} n={n}: operations not measured: {missing}", sc
         if rows:
             pn, pr = rows[-1]
             for op, t in r["times"].items():
@@ -770,6 +787,10 @@ def _run_timing_case(sc):
         if over:
             failure = f"{sc['shape']} n={n}: {over[0][0]} took {over[0][1]:.2f} s CPU (cap {cpu_cap:.0f} s)"
             break
+        bad = [(op, k) for op, k in r.get("errors", {}).items() if ALLOWED_ERRORS.get((sc["shape"], op)) != k]
+        if bad:
+            failure = f"{sc['shape']} n={n}: {bad[0][0]} raised {bad[0][1]}"
+            break
         if rows:
             pn, pr = rows[-1]
             for op, t in r["times"].items():
@@ -798,7 +819,7 @@ MANIFEST = {
                   "cyclic or not) and returns exactly the structures reachable from the seeds, each once; the unrepaired loop "
                   "is refuted (2^(n+1)-1 pops on diamond chains, divergent list walk). The model is tied to /repo on every "
                   "run by evaluating it inside Coq on the graphs the implementation traversed, and a deadline oracle measures "
-                  "to_xmi/to_json/load_*/typecheck/select/cas_to_comparable_text on 13 shapes at sizes n,2n,4n.",
+                  "to_xmi/to_json/load_*/typecheck/select/cas_to_comparable_text on 14 shapes at sizes n,2n,4n.",
     "level_note": "PARTIAL: the theorems bound loop iterations of the model (worklist pops, list-walk steps); hierarchy queries are "
                   "data lookups in Schema (ancestor lists), readers/writers are structural folds over the document / the id-sorted "
                   "list (total by Coq's guard condition). Wall-clock / CPU time of the implementation is measured (absolute cap and "
